@@ -41,6 +41,10 @@ func (c streamCase) handler() func(*env.Rec, grpc.ServerStream) error {
 		return env.HReturnAfter(c.m, nil) // m = messages read before returning
 	case "sendret":
 		return env.HSendThenReturn(c.m, nil)
+	case "hconc":
+		return env.HConcurrent(c.m, true)
+	case "hconcret":
+		return env.HConcurrent(c.m, false)
 	}
 	panic("unknown handler program " + c.hprog)
 }
@@ -59,6 +63,23 @@ func (c streamCase) runCaller(w *env.World, cc grpc.ClientConnInterface, ctx con
 		env.PPingPong(c.n)(r, cs)
 	case "earlyclose":
 		env.PEarlyClose(r, cs)
+	case "recvfirst":
+		// reads the handler's m messages before sending anything
+		for i := 0; i < c.m; i++ {
+			if env.CRecvOne(r, cs) != nil {
+				break
+			}
+		}
+		for i := 0; i < c.n && r.CErr == nil; i++ {
+			if env.CSend(r, cs, env.Pad(fmt.Sprintf("%s.m%d", r.Tag, i))) != nil {
+				break
+			}
+		}
+		env.CClose(r, cs)
+		if r.CErr == nil {
+			env.CRecvAll(r, cs)
+		}
+		r.CDone = true
 	case "concurrent":
 		sent := false
 		vsched.GoNamed("sender-"+r.Tag, func() {
@@ -90,6 +111,11 @@ func c02Cases(maxN int) []streamCase {
 		out = append(out, streamCase{"Bidi", "concurrent", "collect", n, 0, 0})
 		out = append(out, streamCase{"SStream", "sendall", "burst", 1, n, 0})
 		out = append(out, streamCase{"Bidi", "earlyclose", "sendret", 0, n, 0})
+		if n > 0 {
+			// handler with its own receiver goroutine (waiting for it / returning with it pending)
+			out = append(out, streamCase{"Bidi", "recvfirst", "hconc", n - 1, n, 0}, streamCase{"Bidi", "recvfirst", "hconcret", n - 1, n, 0},
+				streamCase{"Bidi", "concurrent", "hconc", n, n, 0})
+		}
 		for k := 0; k < n; k++ {
 			out = append(out, streamCase{"Bidi", "sendall", "retearly", n, k, 0})
 			out = append(out, streamCase{"Bidi", "concurrent", "retearly", n, k, 0})
@@ -250,7 +276,7 @@ func checkC02(r *env.Rec, c streamCase) {
 	if !isPrefix(r.HRecv, r.CSent) {
 		vsched.Fail(fam+"|handler-recv", "%s: handler received %v, caller sent %v", r.Tag, r.HRecv, r.CSent)
 	}
-	readToEnd := c.hprog == "echo" || c.hprog == "collect" || (c.hprog == "burst" && false)
+	readToEnd := c.hprog == "echo" || c.hprog == "collect" || c.hprog == "hconc" || (c.hprog == "burst" && false)
 	if readToEnd {
 		if r.HRecvErr != io.EOF {
 			vsched.Fail(fam+"|handler-eof", "%s: handler's terminal receive error is %v, want io.EOF after the caller's half-close", r.Tag, r.HRecvErr)
